@@ -23,7 +23,7 @@ type prop struct{}
 func (*prop) ID() string    { return "C18" }
 func (*prop) Level() string { return "exploration" }
 func (*prop) Rule() string {
-	return "seeded origin structs in a foreign package (exported, non-embedded fields of scalar, slice, map, pointer, array, foreign named - time.Time, time.Duration, another module package -, error, any, io.Reader / fmt.Stringer types; struct tags with arbitrary backquote-free text incl. dots, colons, @, %, quotes, no key at all; doc comments with hostile text) x seeded omit sets (none, some, all but one) x replace tags whose replacement type provides DeepCopyIntoAs (also on a field that is omitted as well: it must stay omitted); " +
+	return "seeded origin structs in a foreign package of the module and net/url.URL from the standard library (exported, non-embedded fields of scalar, slice, map, pointer, array, foreign named - time.Time, time.Duration, another module package -, error, any, io.Reader / fmt.Stringer types; struct tags with arbitrary backquote-free text incl. dots, colons, @, %, quotes, no key at all; doc comments with hostile text) x seeded omit sets (none, some, all but one) x replace tags whose replacement type provides DeepCopyIntoAs (also on a field that is omitted as well: it must stay omitted); " +
 		"declarations `type x origin.T` ungrouped and inside a parenthesised group together with other partial structs; plus negative declarations (`type x int`, `type x struct{...}`, a plain struct inside a group of partial structs), each alone in its package. The real partialstruct generator runs through Execute. Positives: Execute succeeds, the package builds, and a generated in-package test reflects over the generated struct and the origin: " +
 		"same retained field names in order, reflect.Type identity for every non-replaced field, equal tags, no omitted field; (*X)(nil).DeepCopyAs() == nil; for seeded fillings DeepCopyAs() returns an origin value whose retained fields are reflect.DeepEqual to the source's and whose omitted fields are zero. Negatives: Execute returns an error naming the generator and the package, and no file is written. " +
 		"Non-trivial = an origin with >= 1 omitted field, a tag containing '.', a foreign named / interface / error field, a replace tag or a grouped declaration; distinct by hash of (origin source, omit set, replace set, grouping)."
@@ -81,6 +81,8 @@ type origin struct {
 }
 
 type partial struct {
+	// originPkg / originImport: "" = the module's origin package; otherwise a std package (e.g. net/url)
+	originPkg string
 	decl     string // lower-case declared name
 	gen      string // generated struct name
 	origin   *origin
@@ -335,7 +337,7 @@ func sorted(s []string) []string {
 
 func testFile(pkg string, ps []*partial) string {
 	var b strings.Builder
-	fmt.Fprintf(&b, "package %s\n\nimport (\n\t\"errors\"\n\t\"fmt\"\n\t\"io\"\n\t\"reflect\"\n\t\"strings\"\n\t\"testing\"\n\t\"time\"\n\n\th_origin \"%s/origin\"\n)\n\nvar _ = errors.New\nvar _ io.Reader\nvar _ = strings.NewReader\n", pkg, mod)
+	fmt.Fprintf(&b, "package %s\n\nimport (\n\t\"errors\"\n\t\"fmt\"\n\t\"io\"\n\t\"reflect\"\n\t\"strings\"\n\t\"testing\"\n\t\"time\"\n\n\th_url \"net/url\"\n\n\th_origin \"%s/origin\"\n)\n\nvar _ h_url.URL\nvar _ = errors.New\nvar _ io.Reader\nvar _ = strings.NewReader\n", pkg, mod)
 	b.WriteString(helpers)
 	b.WriteString("\nfunc TestC18Partial(t *testing.T) {\n")
 	for i, p := range ps {
@@ -344,9 +346,13 @@ func testFile(pkg string, ps []*partial) string {
 			repl[k] = true
 		}
 		fmt.Fprintf(&b, "\t{\n\t\tomit, repl := %s, %s\n", setLit(p.omit), setLit(repl))
-		fmt.Fprintf(&b, "\t\tc18shape(%d, reflect.TypeOf(%s{}), reflect.TypeOf(h_origin.%s{}), omit, repl)\n", i, p.gen, p.origin.name)
+		oq := "h_origin"
+		if p.originPkg != "" {
+			oq = "h_url"
+		}
+		fmt.Fprintf(&b, "\t\tc18shape(%d, reflect.TypeOf(%s{}), reflect.TypeOf(%s.%s{}), omit, repl)\n", i, p.gen, oq, p.origin.name)
 		fmt.Fprintf(&b, "\t\tvar nilp *%s\n\t\tif nilp.DeepCopyAs() != nil {\n\t\t\tfmt.Printf(\"C18MISMATCH %d DeepCopyAs of nil is not nil\\n\")\n\t\t}\n", p.gen, i)
-		fmt.Fprintf(&b, "\t\tfor seed := uint64(1); seed <= 5; seed++ {\n\t\t\tsrc := new(%s)\n\t\t\tc18fill(&c18rng{s: seed}, reflect.ValueOf(src).Elem(), 0)\n\t\t\tdst := src.DeepCopyAs()\n\t\t\tif dst == nil {\n\t\t\t\tfmt.Printf(\"C18MISMATCH %d DeepCopyAs returned nil\\n\")\n\t\t\t\tcontinue\n\t\t\t}\n\t\t\tvar _ *h_origin.%s = dst\n\t\t\tc18copy(%d, reflect.ValueOf(src).Elem(), reflect.ValueOf(dst).Elem(), omit, repl)\n\t\t}\n\t}\n", p.gen, i, p.origin.name, i)
+		fmt.Fprintf(&b, "\t\tfor seed := uint64(1); seed <= 5; seed++ {\n\t\t\tsrc := new(%s)\n\t\t\tc18fill(&c18rng{s: seed}, reflect.ValueOf(src).Elem(), 0)\n\t\t\tdst := src.DeepCopyAs()\n\t\t\tif dst == nil {\n\t\t\t\tfmt.Printf(\"C18MISMATCH %d DeepCopyAs returned nil\\n\")\n\t\t\t\tcontinue\n\t\t\t}\n\t\t\tvar _ *%s.%s = dst\n\t\t\tc18copy(%d, reflect.ValueOf(src).Elem(), reflect.ValueOf(dst).Elem(), omit, repl)\n\t\t}\n\t}\n", p.gen, i, oq, p.origin.name, i)
 	}
 	fmt.Fprintf(&b, "\tfmt.Printf(\"C18DONE %s\\n\")\n}\n", pkg)
 	return b.String()
@@ -376,7 +382,7 @@ func (p *prop) runBatch(c core.Case, w *core.Worker, res *core.Result, r *rand.R
 	for i := 0; i < n; i++ {
 		name := fmt.Sprintf("part%d", i)
 		var src strings.Builder
-		fmt.Fprintf(&src, "package %s\n\nimport (\n\t\"%s/origin\"\n)\n\n", name, mod)
+		fmt.Fprintf(&src, "package %s\n\nimport (\n\t\"net/url\"\n\n\t\"%s/origin\"\n)\n\nvar _ url.URL\n\n", name, mod)
 		var ps []*partial
 		np := 1 + r.Intn(4)
 		mk := func(grouped bool) *partial {
@@ -445,6 +451,23 @@ func (p *prop) runBatch(c core.Case, w *core.Worker, res *core.Result, r *rand.R
 				ps = append(ps, pt)
 			}
 		}
+		if r.Intn(3) == 0 {
+			// an origin from the standard library: net/url.URL (exported fields only, one pointer field)
+			on++
+			o := &origin{name: "URL"}
+			for _, fn := range []string{"Scheme", "Opaque", "User", "Host", "Path", "RawPath", "OmitHost", "ForceQuery", "RawQuery", "Fragment", "RawFragment"} {
+				o.fields = append(o.fields, ofield{name: fn, typ: "std"})
+			}
+			pt := &partial{originPkg: "net/url", decl: fmt.Sprintf("u%d", on), gen: fmt.Sprintf("U%d", on), origin: o, omit: map[string]bool{}, replace: map[string]string{}, nontriv: true}
+			for _, f := range o.fields {
+				if r.Intn(3) == 0 {
+					pt.omit[f.name] = true
+				}
+			}
+			src.WriteString(doc(pt, ""))
+			fmt.Fprintf(&src, "type %s url.URL\n\n", pt.decl)
+			ps = append(ps, pt)
+		}
 		pks = append(pks, pk{name, src.String(), ps})
 		m.MustWrite(filepath.Join(name, "types.go"), src.String())
 		entries = append(entries, "./"+name)
@@ -485,6 +508,9 @@ func (p *prop) runBatch(c core.Case, w *core.Worker, res *core.Result, r *rand.R
 				res.NonTrivial(fmt.Sprintf("%s|%v|%v|%v", strings.ReplaceAll(pt.origin.source(), pt.origin.name, "O"), pt.omit, pt.replace, pt.grouped))
 			}
 			res.Count("fields_compared", int64(len(pt.origin.fields)))
+			if pt.originPkg != "" {
+				res.Inc("std_origin_declarations")
+			}
 			if pt.grouped {
 				res.Inc("grouped_declarations")
 			}
